@@ -218,3 +218,18 @@ def insertPath (p : List Nat) : List (List Nat) → List (List Nat)
 def sortPaths (ps : List (List Nat)) : List (List Nat) := ps.foldr insertPath []
 
 end Delb.Nav
+
+namespace Delb.Nav
+open Delb.Edit
+
+/-- the visible child that sits at a location of the encoding -/
+def locNode (data : Chain) (kids : List (El × Chain)) : Loc → Option PTree
+  | .inData j => (data[j]?).map (fun t => PTree.text t.id t.s)
+  | .elem k => (kids[k]?).map (fun p => abs p.1)
+  | .inTail k j => ((tailOf kids k)[j]?).map (fun t => PTree.text t.id t.s)
+
+def textContent : PTree → Str
+  | .text _ s => s
+  | _ => []
+
+end Delb.Nav
